@@ -87,6 +87,22 @@ def neighbour_words(table, wanted, rng, attempts):
             yield w2, dst
 
 
+CENSUS_REGS = ('cpsr', 'sctlr', 'scr', 'hcr', 'hsctlr', 'nsacr', 'cpacr', 'hcptr', 'hstr', 'ttbcr')
+
+
+def census_sets(ls):
+    """'reg:bit=0' / 'reg:bit=1' for every control-register bit value that occurred in a stepped pre-state (sets are united
+    over the shards; the evidence lists the bits that were seen with BOTH values)"""
+    out = set()
+    for reg_, (ones, zeros) in (getattr(ls, '_census', None) or {}).items():
+        for b in range(32):
+            if (ones >> b) & 1:
+                out.add('%s:%d=1' % (reg_, b))
+            if (zeros >> b) & 1:
+                out.add('%s:%d=0' % (reg_, b))
+    return out
+
+
 def categ(name):
     if name == 'PC':
         return 'PC'
@@ -154,6 +170,17 @@ class LockStep:
         if after_prepare is not None:
             after_prepare(cpu)
         pre = observe.snapshot(cpu)
+        # census of the pre-states actually stepped: which bits of the control registers were seen as 0 and as 1
+        cs = self.__dict__.setdefault('_census', {})
+        for reg_ in CENSUS_REGS:
+            v_ = pre.get(reg_)
+            if isinstance(v_, int):
+                c_ = cs.get(reg_)
+                if c_ is None:
+                    cs[reg_] = [v_ & 0xFFFFFFFF, ~v_ & 0xFFFFFFFF]
+                else:
+                    c_[0] |= v_ & 0xFFFFFFFF
+                    c_[1] |= ~v_ & 0xFFFFFFFF
         k, sig = scen.step(cpu)
         post = observe.snapshot(cpu)
         verdict, ref, info = RS.step(pre, ctx.cfg)
